@@ -77,11 +77,19 @@ def build_dir():
         os.utime(d, None)
     except OSError:
         pass
-    others = [os.path.join(base, x) for x in os.listdir(base) if x != tree_hash() and len(x) == 16]
-    others.sort(key=lambda p: os.path.getmtime(p), reverse=True)
-    for p in others[4:]:
-        if time.time() - os.path.getmtime(p) > 3 * 3600:
-            shutil.rmtree(p, ignore_errors=True)
+    def mtime(p):
+        try:
+            return os.path.getmtime(p)
+        except OSError:      # removed meanwhile by a concurrent builder
+            return time.time()
+    try:
+        others = [os.path.join(base, x) for x in os.listdir(base) if x != tree_hash() and len(x) == 16]
+        others.sort(key=mtime, reverse=True)
+        for p in others[4:]:
+            if time.time() - mtime(p) > 3 * 3600:
+                shutil.rmtree(p, ignore_errors=True)
+    except OSError:
+        pass
     return d
 
 
@@ -296,6 +304,22 @@ def scaled_weights(model, names):
     return [int(v * den) for v in vals], den
 
 
+def unscaled_weight_vectors(rec_or_case, model):
+    """The model's weights WITHOUT scaling to integers, as exactly representable doubles: the raw values when all are dyadic, and the values
+    rounded to positive multiples of 1/8 otherwise.  Needed to reproduce violations that only exist for non-integral weights (a weight
+    truncated to an integer somewhere): scaling the counterexample to integers would hide them."""
+    ints, den = instance_weights(rec_or_case, model)
+    if den == 1:
+        return []
+    out = []
+    if den & (den - 1) == 0 and den <= 2 ** 20:
+        out.append([w / float(den) for w in ints])
+    r8 = [max(1, round(fractions.Fraction(w, den) * 8)) / 8.0 for w in ints]
+    if r8 not in out:
+        out.append(r8)
+    return out
+
+
 def instance_weights(rec_or_case, model):
     """Concrete integer weights of every edge of a case under `model` (symbolic edges scaled, fixed edges scaled too)."""
     c = rec_or_case
@@ -315,6 +339,22 @@ def instance_weights(rec_or_case, model):
     for v in vals:
         den = den * v.denominator // math.gcd(den, v.denominator)
     return [int(v * den) for v in vals], den
+
+
+def unscaled_weight_vectors(rec_or_case, model):
+    """The model's weights WITHOUT scaling to integers, as exactly representable doubles: the raw values when all are dyadic, and the values
+    rounded to positive multiples of 1/8 otherwise.  Needed to reproduce violations that only exist for non-integral weights (a weight
+    truncated to an integer somewhere): scaling the counterexample to integers would hide them."""
+    ints, den = instance_weights(rec_or_case, model)
+    if den == 1:
+        return []
+    out = []
+    if den & (den - 1) == 0 and den <= 2 ** 20:
+        out.append([w / float(den) for w in ints])
+    r8 = [max(1, round(fractions.Fraction(w, den) * 8)) / 8.0 for w in ints]
+    if r8 not in out:
+        out.append(r8)
+    return out
 
 
 def parse_case(line):
